@@ -849,9 +849,17 @@ func init() {
 			for s := 0; s < 16; s++ {
 				jobs = append(jobs, c06Job(s, 16, p, b))
 			}
+			for _, sc := range c06ConcurrentScenarios(tier) {
+				jobs = append(jobs, ExploreJob("C06", sc, oracleC06Concurrent))
+			}
 			return jobs
 		}})
-	replayers["C06"] = replayDescOnly
+	replayers["C06"] = func(tier string, v coop.Violation) int {
+		if len(v.Choices) > 0 {
+			return replayExplore("C06", c06ConcurrentScenarios(tier), oracleC06Concurrent, v)
+		}
+		return replayDescOnly(tier, v)
+	}
 }
 
 func replayDescOnly(tier string, v coop.Violation) int {
